@@ -95,6 +95,40 @@ func (g *tgen) structType(depth int) reflect.Type {
 	return reflect.StructOf(fields)
 }
 
+// structTypeWild: outside the family of the JSON judges (DESIGN.md R12) — embedded structs with and
+// without the inline option, inline on fields that are not embedded or not structs, repeated JSON
+// names. Used for the model tie only (`rfl.conv` / `rfl.json`), never judged against encoding/json.
+func (g *tgen) structTypeWild(depth int) reflect.Type {
+	nf := 1 + g.r.Intn(5)
+	var fields []reflect.StructField
+	for i := 0; i < nf; i++ {
+		name := fmt.Sprintf("F%d", i)
+		jsonName := gen.Pick(g.r, []string{"a", "b", "c", "F0", "F1"})
+		k := g.r.Intn(20)
+		switch {
+		case k < 5 && depth > 0:
+			var inner reflect.Type
+			if g.r.Bool() {
+				inner = g.structTypeWild(depth - 1)
+			} else {
+				inner = gen.Pick(g.r, []reflect.Type{reflect.TypeOf(Inner{}), reflect.TypeOf(In3{}), reflect.TypeOf(In2{})})
+			}
+			if g.r.Chance(40) {
+				inner = reflect.PointerTo(inner)
+			}
+			tag := gen.Pick(g.r, []string{`json:",inline"`, `json:",inline"`, `json:",inline"`, ``, `json:"` + jsonName + `"`, `json:",inline,omitempty"`, `json:"-"`})
+			fields = append(fields, reflect.StructField{Name: fmt.Sprintf("E%d", i), Type: inner, Anonymous: true, Tag: reflect.StructTag(tag)})
+		case k < 7:
+			t := gen.Pick(g.r, []reflect.Type{reflect.TypeOf(Inner{}), reflect.TypeOf(&Inner{}), reflect.TypeOf(0), reflect.TypeOf([]string{}), reflect.TypeOf(map[string]int{})})
+			fields = append(fields, reflect.StructField{Name: name, Type: t, Tag: `json:",inline"`})
+		default:
+			tag := gen.Pick(g.r, []string{`json:"` + jsonName + `"`, `json:"` + jsonName + `,omitempty"`, `json:"` + jsonName + `,omitempty"`, `json:"-"`, ``, `json:",omitempty"`})
+			fields = append(fields, reflect.StructField{Name: name, Type: g.typ(depth), Tag: reflect.StructTag(tag)})
+		}
+	}
+	return reflect.StructOf(fields)
+}
+
 // fill sets v (addressable) to a random value of its type.
 func (g *tgen) fill(v reflect.Value, depth int) {
 	switch v.Kind() {
@@ -298,6 +332,31 @@ func domRfl(r *gen.Rng, n int, thorough bool, o *Out) {
 				w.Y = "y"
 			}
 			ptr = reflect.ValueOf(w)
+		} else if cr.Chance(12) {
+			// the model tie only
+			var st reflect.Type
+			if safe(func() string { st = g.structTypeWild(2); return "ok" }) != "ok" || st == nil {
+				continue
+			}
+			ptr = reflect.New(st)
+			g.fill(ptr.Elem(), 3)
+			if ts, ok := vx.GoType(st); ok {
+				if vs, ok := vx.GoVal(ptr.Elem()); ok {
+					o.Emit("rfl.conv "+ts+" "+vs, func() string {
+						rv, err := value.NewValueReflect(ptr.Interface())
+						if err != nil {
+							return "err"
+						}
+						return vx.Value(rv)
+					})
+					if want, err := viaJSON(ptr.Interface()); err == nil {
+						o.Emit("rfl.json "+ts+" "+vs, func() string { return vx.Unstructured(want) })
+					}
+					o.Tag("rfl:modelled-wild")
+				}
+			}
+			o.Cases++
+			continue
 		} else if cr.Chance(15) {
 			ptr = reflect.New(gen.Pick(cr, compiledTypes))
 			g.fill(ptr.Elem(), 5)
@@ -338,6 +397,20 @@ func domRfl(r *gen.Rng, n int, thorough bool, o *Out) {
 		}
 		if unstructS != wantS {
 			o.Fail("C18", "reflect/unstructured-equals-json-round-trip", "Unstructured() "+unstructS+" json "+wantS, "reflect/unstructured-equals-json-round-trip "+sig, "rfl:"+sig)
+		}
+		// the reflection model: the library's reading and encoding/json's reading of the same Go data
+		if ts, ok := vx.GoType(ptr.Type().Elem()); ok {
+			if vs, ok := vx.GoVal(ptr.Elem()); ok {
+				o.Emit("rfl.conv "+ts+" "+vs, func() string {
+					rv, err := value.NewValueReflect(ptr.Interface())
+					if err != nil {
+						return "err"
+					}
+					return vx.Value(rv)
+				})
+				o.Emit("rfl.json "+ts+" "+vs, func() string { return vx.Unstructured(want) })
+				o.Tag("rfl:modelled")
+			}
 		}
 		// equality / ordering between the reflected value and generic values: tied to the model through val.cmp
 		other := gen.Mutate(cr, gen.DeepCopy(want), 2)
